@@ -273,7 +273,12 @@ type c13Case struct {
 	Lim    limits      `json:"lim"`
 	Frames []frameSpec `json:"frames,omitempty"`
 	Flood  *floodSpec  `json:"flood,omitempty"`
+	// Patience multiplies the hang watchdog; the supervisor re-runs a case that hit the watchdog with
+	// more patience before it reports a hang (a loaded machine must not turn into a verdict).
+	Patience int `json:"patience,omitempty"`
 }
+
+func (c c13Case) wd() time.Duration { return watchdog * time.Duration(1+c.Patience) }
 
 type c13Obs struct {
 	Panic      string `json:"panic,omitempty"`
@@ -491,7 +496,7 @@ func runC13Server(c c13Case, env *c13Env) (o c13Obs) {
 		_ = err
 	}
 	peer.CloseWrite()
-	timer := time.NewTimer(watchdog)
+	timer := time.NewTimer(c.wd())
 	defer timer.Stop()
 	for {
 		select {
@@ -633,7 +638,7 @@ func runC13Client(c c13Case, env *c13Env) (o c13Obs) {
 		// the conforming sentinel response marks the point where the dispatcher has consumed the flood
 		select {
 		case <-reqDone[1]:
-		case <-time.After(watchdog):
+		case <-time.After(c.wd()):
 			o.Hang, o.HangKind = "the conforming response sent after the flood was never delivered", "no-delivery-after-flood"
 			return
 		}
@@ -642,7 +647,7 @@ func runC13Client(c c13Case, env *c13Env) (o c13Obs) {
 	}
 	peer.CloseWrite()
 	// the dispatcher must report the end of the stream (io.EOF on the error channel)
-	deadline := time.NewTimer(watchdog)
+	deadline := time.NewTimer(c.wd())
 	defer deadline.Stop()
 	tick := time.NewTicker(2 * time.Millisecond)
 	defer tick.Stop()
@@ -837,6 +842,13 @@ func singleFrames(cs ctxSpec, thorough bool) []frameSpec {
 						if secured(cs.ctx) && !thorough && (tok != "right" || sq != "next") {
 							continue
 						}
+						if !thorough && (tok != "right" || sq != "next") {
+							// quick: the every-length truncations only with the conforming token id and sequence number
+							bs = []string{"valid", "empty", "opn", "fault", "unknown-type", "junk"}
+							if ch == "A" {
+								bs = []string{"abort", "empty", "junk"}
+							}
+						}
 						for _, b := range bs {
 							f := validFrame(t)
 							f.Chunk, f.Token, f.Seq, f.Req, f.Body = ch, tok, sq, rq, b
@@ -855,6 +867,9 @@ func singleFrames(cs ctxSpec, thorough bool) []frameSpec {
 			for _, cert := range []string{"null", "empty", "valid", "truncated", "non-rsa"} {
 				for _, th := range []string{"null", "valid", "garbage"} {
 					for _, b := range []string{"opn", "empty", "valid", "junk"} {
+						if !thorough && (th == "garbage" || b == "valid") {
+							continue
+						}
 						f := validFrame("OPN")
 						f.Chunk, f.Policy, f.Cert, f.Thumb, f.Body = ch, pol, cert, th, b
 						add(f)
@@ -1076,6 +1091,11 @@ func runViaPool(pl *pool, c c13Case) c13Obs {
 	}
 	if o.Fatal != "" {
 		evid.EngineError("C13", "harness failure on case %+v: %s", c, o.Fatal)
+	}
+	if o.Hang != "" && o.HangKind != "dispatcher-wedged-on-receive-lock" && c.Patience < 3 {
+		// a watchdog verdict is only reported if the case still hangs with 2x and 4x the patience
+		c.Patience = c.Patience*2 + 1
+		return runViaPool(pl, c)
 	}
 	return o
 }
